@@ -15,7 +15,9 @@ import (
 	"crypto/x509/pkix"
 	"encoding/pem"
 	"fmt"
+	"io"
 	"math/big"
+	"net/http"
 	"strings"
 	"testing"
 	"time"
@@ -211,6 +213,38 @@ func TestVerif_C09_History(t *testing.T) {
 		now := time.Now()
 		day := 24 * time.Hour
 		owner := c09Tenants[0]
+		// the same history is also played over real TLS connections: one HTTP client per
+		// registered certificate, each with a session cache, every request on a new connection
+		// (so later requests of a client resume the TLS session of its first one)
+		rec := &c09Recorder{}
+		ts := c09Server(chain, rec)
+		defer ts.Close()
+		clients := map[int64]*http.Client{}
+		served := func(s int64, c *c09Cert) (bool, int) {
+			hc := clients[s]
+			if hc == nil {
+				hc = &http.Client{Timeout: 20 * time.Second, Transport: &http.Transport{
+					TLSClientConfig: &tls.Config{Certificates: []tls.Certificate{c.tls}, InsecureSkipVerify: true, MinVersion: tls.VersionTLS13, // nolint: gosec
+						ClientSessionCache: tls.NewLRUClientSessionCache(4)},
+					DisableKeepAlives: true,
+				}}
+				clients[s] = hc
+			}
+			rec.mu.Lock()
+			before := len(rec.leases)
+			rec.mu.Unlock()
+			resp, err := hc.Get(ts.URL + "/lease/1/1/1/status")
+			status := 0
+			if err == nil {
+				status = resp.StatusCode
+				_, _ = io.Copy(io.Discard, resp.Body)
+				resp.Body.Close()
+			}
+			rec.mu.Lock()
+			after := len(rec.leases)
+			rec.mu.Unlock()
+			return after > before, status
+		}
 		regs := map[int64]*c09Reg{} // serial -> registration of tenant 0
 		var hist []string
 		accepted, revocations, interesting := 0, 0, false
@@ -286,6 +320,16 @@ func TestVerif_C09_History(t *testing.T) {
 				}
 				if verr == nil {
 					accepted++
+				}
+				if kind == "genuine" {
+					reached, status := served(s, r.cert)
+					hist = append(hist, fmt.Sprintf("request(%d)->reached=%v,status=%d", s, reached, status))
+					if expect == "reject" && reached {
+						t.Fatalf("C09 VIOLATION key=c09-revoked-served: a request over TLS with certificate %d, which is revoked on chain, reached the provider's handlers as %s (status %d)\n-- history: %v", s, owner, status, hist)
+					}
+					if expect == "accept" && !reached {
+						t.Fatalf("C09 VIOLATION key=c09-genuine-not-served: a request with the registered, unrevoked certificate %d did not reach the handler (status %d)\n-- history: %v", s, status, hist)
+					}
 				}
 			}
 		}
